@@ -503,10 +503,10 @@ func mustReject(d doc) string {
 // ---------------------------------------------------------------- run
 
 type Case struct {
-	Faults  []Fault `json:"faults"`
-	Variant string  `json:"variant,omitempty"`
-	YAML    string  `json:"yaml"`
-	MustAccept bool `json:"must_accept,omitempty"`
+	Faults     []Fault `json:"faults"`
+	Variant    string  `json:"variant,omitempty"`
+	YAML       string  `json:"yaml"`
+	MustAccept bool    `json:"must_accept,omitempty"`
 }
 
 var tmpDir string
@@ -626,19 +626,19 @@ func variant(d doc, v string) {
 
 // out-of-range / alternative values per leaf
 var alternatives = map[string][]any{
-	"version":                {"1.0.2", "1.0.4", "1.0.30", "1.0", " 1.0.3", "2.0.0", "v1.0.3"},
-	"pfcp.addr":              {"not a host!", "127.0.0.8:8805", "300.1.1.1", "a b", "http://x/"},
-	"pfcp.nodeID":            {"not a host!", "300.1.1.1", "1.2.3", "a b"},
-	"pfcp.retransTimeout":    {"0s", "abc", "1x"},
-	"pfcp.maxRetrans":        {256, -1, "many"},
-	"gtpu.forwarder":         {"gtp5gx", "xdp", "GTP5G", "gtp5g "},
-	"gtpu.ifList.0.addr":     {"not a host!", "300.1.1.1", "a b"},
-	"gtpu.ifList.0.type":     {"N6", "n3", "N3 ", "N3|N9", ""},
-	"gtpu.ifList.0.mtu":      {-1, 4294967296, "big"},
-	"dnnList.0.cidr":         {"10.60.0.0/33", "10.60.0.0", "10.60.0/24", "internet", "10.60.0.0/-1", "::1/129"},
-	"dnnList.0.dnn":          {""},
-	"logger.level":           {"verbose", "INFO", "warning", "info ", "trace|debug", ""},
-	"logger.enable":          {"maybe"},
+	"version":             {"1.0.2", "1.0.4", "1.0.30", "1.0", " 1.0.3", "2.0.0", "v1.0.3"},
+	"pfcp.addr":           {"not a host!", "127.0.0.8:8805", "300.1.1.1", "a b", "http://x/"},
+	"pfcp.nodeID":         {"not a host!", "300.1.1.1", "1.2.3", "a b"},
+	"pfcp.retransTimeout": {"0s", "abc", "1x"},
+	"pfcp.maxRetrans":     {256, -1, "many"},
+	"gtpu.forwarder":      {"gtp5gx", "xdp", "GTP5G", "gtp5g "},
+	"gtpu.ifList.0.addr":  {"not a host!", "300.1.1.1", "a b"},
+	"gtpu.ifList.0.type":  {"N6", "n3", "N3 ", "N3|N9", ""},
+	"gtpu.ifList.0.mtu":   {-1, 4294967296, "big"},
+	"dnnList.0.cidr":      {"10.60.0.0/33", "10.60.0.0", "10.60.0/24", "internet", "10.60.0.0/-1", "::1/129"},
+	"dnnList.0.dnn":       {""},
+	"logger.level":        {"verbose", "INFO", "warning", "info ", "trace|debug", ""},
+	"logger.enable":       {"maybe"},
 }
 
 func account(c *Case, nontrivial bool, kind string) {
